@@ -174,10 +174,11 @@ func ruleF54(c *Ctx) *RuleResult {
 			if okLead {
 				r.ok(key, c.Pos(st.Pos()), FuncName(fn), what, "BaseTime of the part track found by leading track id")
 			} else {
+				// which part track it is cannot be told from this form: no verdict (never reported as a violation)
 				if why == "" {
-					why = "the part track whose BaseTime is taken is not the result of the look-up by leading track id"
+					why = "the part track whose BaseTime is taken is not recognisably the result of the look-up by leading track id"
 				}
-				r.fail(key, c.Pos(st.Pos()), FuncName(fn), what, why)
+				r.undecided("F54: %s at %s: %s", FuncName(fn), c.Pos(st.Pos()), why)
 			}
 		}
 	}
@@ -185,19 +186,64 @@ func ruleF54(c *Ctx) *RuleResult {
 	return r
 }
 
-// isLeadingLookup: v is the result of a call one of whose arguments is the leadingTrackID field.
+// isLeadingLookup: v is the result of a call to a function that returns a part track only behind the test
+// `partTrack.ID == <leading track id>` (the id being an argument that loads the leadingTrackID field, or that field
+// read by the function itself).
 func isLeadingLookup(v ssa.Value, lead *types.Var) bool {
 	v = canon(v)
 	call, ok := v.(*ssa.Call)
 	if !ok {
 		return false
 	}
-	for _, a := range call.Call.Args {
-		if f, _ := loadedField(stripConv(a)); f != nil && (f == lead || strings.Contains(strings.ToLower(f.Name()), "leadingtrackid")) {
+	g := call.Call.StaticCallee()
+	if g == nil || g.Blocks == nil || !InRootPkg(g) {
+		return false
+	}
+	isLead := func(x ssa.Value) bool {
+		x = stripConv(x)
+		if f, _ := loadedField(x); f != nil && f == lead {
 			return true
 		}
+		if p, isP := x.(*ssa.Parameter); isP {
+			for i, q := range g.Params {
+				if q == p && i < len(call.Call.Args) {
+					if f, _ := loadedField(stripConv(call.Call.Args[i])); f != nil && f == lead {
+						return true
+					}
+				}
+			}
+		}
+		return false
 	}
-	return false
+	isID := func(x ssa.Value) bool {
+		f, _ := loadedField(stripConv(x))
+		return f != nil && f.Name() == "ID"
+	}
+	conds := ifsOnV(g, func(x ssa.Value) bool {
+		bo, ok := x.(*ssa.BinOp)
+		if !ok || bo.Op != token.EQL {
+			return false
+		}
+		return (isID(bo.X) && isLead(bo.Y)) || (isID(bo.Y) && isLead(bo.X))
+	})
+	if len(conds) == 0 {
+		return false
+	}
+	nonNil := 0
+	for _, b := range g.Blocks {
+		ret, ok := b.Instrs[len(b.Instrs)-1].(*ssa.Return)
+		if !ok || len(ret.Results) == 0 {
+			continue
+		}
+		if k, isK := retVal(ret, 0).(*ssa.Const); isK && k.IsNil() {
+			continue
+		}
+		nonNil++
+		if !onlyIf(g, ret, conds, true) {
+			return false
+		}
+	}
+	return nonNil > 0
 }
 
 // ---------------------------------------------------------------------------
@@ -205,6 +251,22 @@ func isLeadingLookup(v ssa.Value, lead *types.Var) bool {
 func ruleF55(c *Ctx) *RuleResult {
 	r := &RuleResult{Floor: 4, FloorWhat: "timestamps handed to setNTP / getNTP"}
 	n := 0
+	ntpFns := map[*ssa.Function]bool{}
+	convFns := map[*ssa.Function]bool{}
+	for _, tn := range []string{"clientTimeConvFMP4", "clientTimeConvMPEGTS"} {
+		for _, mn := range []string{"setNTP", "getNTP"} {
+			if m := c.Method("", tn, mn); m != nil {
+				ntpFns[m] = true
+			} else {
+				r.undecided("F55: %s.%s not found", tn, mn)
+			}
+		}
+		if m := c.Method("", tn, "convert"); m != nil {
+			convFns[m] = true
+		} else {
+			r.undecided("F55: %s.convert not found", tn)
+		}
+	}
 	for _, fn := range c.clientFuncs() {
 		if fn.Blocks == nil {
 			continue
@@ -216,11 +278,11 @@ func ruleF55(c *Ctx) *RuleResult {
 				return
 			}
 			g := call.Call.StaticCallee()
-			if g == nil || g.Signature.Recv() == nil || (g.Name() != "setNTP" && g.Name() != "getNTP") {
+			if g == nil || g.Signature.Recv() == nil || !ntpFns[g] {
 				return
 			}
 			recv := namedOf(g.Signature.Recv().Type())
-			if recv == nil || !strings.HasPrefix(recv.Obj().Name(), "clientTimeConv") {
+			if recv == nil {
 				return
 			}
 			// the first int64 parameter is the timestamp
@@ -234,8 +296,8 @@ func ruleF55(c *Ctx) *RuleResult {
 				key := fmt.Sprintf("%s|%s timestamp#%d", FuncName(fn), g.Name(), cnt)
 				what := "the distance to the PROGRAM-DATE-TIME anchor is measured on unwrapped, origin-relative time"
 				arg := call.Call.Args[i]
-				if isConvertResult(arg, recv, 0) {
-					r.ok(key, c.Pos(call.Pos()), FuncName(fn), what, "a result of "+recv.Obj().Name()+".convert")
+				if isConvertResult(arg, recv, convFns, 0) {
+					r.ok(key, c.Pos(call.Pos()), FuncName(fn), what, "a result of "+recv.Obj().Name()+"'s converter")
 				} else {
 					r.fail(key, c.Pos(call.Pos()), FuncName(fn), what, "the argument ("+describeVal(canon(arg))+") is not a result of convert(): a raw container timestamp reaches the wall-clock arithmetic, AbsoluteTime jumps by the origin offset or by 2^33 ticks at a roll-over")
 				}
@@ -247,7 +309,7 @@ func ruleF55(c *Ctx) *RuleResult {
 	return r
 }
 
-func isConvertResult(v ssa.Value, recv *types.Named, depth int) bool {
+func isConvertResult(v ssa.Value, recv *types.Named, convFns map[*ssa.Function]bool, depth int) bool {
 	if depth > 4 {
 		return false
 	}
@@ -255,10 +317,10 @@ func isConvertResult(v ssa.Value, recv *types.Named, depth int) bool {
 	switch x := v.(type) {
 	case *ssa.Call:
 		g := x.Call.StaticCallee()
-		return g != nil && g.Name() == "convert" && g.Signature.Recv() != nil && namedOf(g.Signature.Recv().Type()) == recv
+		return g != nil && convFns[g] && g.Signature.Recv() != nil && namedOf(g.Signature.Recv().Type()) == recv
 	case *ssa.Phi:
 		for _, e := range x.Edges {
-			if !isConvertResult(e, recv, depth+1) {
+			if !isConvertResult(e, recv, convFns, depth+1) {
 				return false
 			}
 		}
